@@ -23,6 +23,7 @@ use std::sync::Arc;
 pub fn roots_of(part: &mut Part, seen: &Seen, kind: K, m: &Bits, provs: &[Prov]) -> Vec<Vo> {
     let mut out: Vec<Vo> = Vec::new();
     let mut raws: Vec<Raw> = Vec::new();
+    let counts = ROOT_FINDINGS_COUNT.load(std::sync::atomic::Ordering::Relaxed);
     for p in provs {
         if !p.applies(kind, m.len()) {
             continue;
@@ -42,10 +43,29 @@ pub fn roots_of(part: &mut Part, seen: &Seen, kind: K, m: &Bits, provs: &[Prov])
             observed,
         };
         match built {
-            Err(()) => part.violation(mk("panicked", "returns".into(), "panicked".into(), "state")),
+            Err(()) => {
+                if counts {
+                    part.violation(mk("panicked", "returns".into(), "panicked".into(), "state"));
+                } else {
+                    part.count("roots_rejected_by_validation", 1);
+                }
+            }
             Ok(vo) => {
                 part.transitions += 1;
-                let bad = check_vector(part, seen, Level::Full, &vo.v, m, &mk, "");
+                let bad = if counts {
+                    check_vector(part, seen, Level::Full, &vo.v, m, &mk, "")
+                } else {
+                    let mut tmp = Part::new();
+                    let private = Seen::new();
+                    let bad = check_vector(&mut tmp, &private, Level::Lite, &vo.v, m, &mk, "");
+                    for s in tmp.states {
+                        part.states.insert(s);
+                    }
+                    if bad {
+                        part.count("roots_rejected_by_validation", 1);
+                    }
+                    bad
+                };
                 let r = vo.v.raw();
                 if !bad && !raws.contains(&r) {
                     raws.push(r);
